@@ -287,3 +287,78 @@ fault("c13-title-no-collapse", "C13", "R13e", (HTML, '            title = re.sub
 fault("c13-subject-no-collapse", "C13", "R13e", (MBOX, '            subject = re.sub(r"\\s+", " ", subject)\n', ""))
 fault("c13-title-collapse-spaces-only", "C13", "R13e", (HTML, 'title = re.sub(r"[\\s]+", " ", parser.titlestr)', 'title = re.sub(r" +", " ", parser.titlestr)'))
 twin("c13-twin-collapse-join-split", "C13", (HTML, 'title = re.sub(r"[\\s]+", " ", parser.titlestr)', 'title = re.sub(r"\\s+", " ", parser.titlestr).strip()'))
+
+# ======================================================================= C10
+fault("c10-le", "C10", "R10a", (DIR, "if time.time() - statval[stat.ST_MTIME] < self.cachetime:", "if time.time() - statval[stat.ST_MTIME] <= self.cachetime:"))
+fault("c10-gt", "C10", "R10a", (DIR, "if time.time() - statval[stat.ST_MTIME] < self.cachetime:", "if time.time() - statval[stat.ST_MTIME] > self.cachetime:"))
+fault("c10-const", "C10", "R10a", (DIR, "if time.time() - statval[stat.ST_MTIME] < self.cachetime:", "if time.time() - statval[stat.ST_MTIME] < 180:"))
+fault("c10-ctime-of-dir", "C10", "R10a", (DIR, "            statval = self.vfs.stat(self.cachename)\n", "            statval = self.vfs.stat(self.selector)\n"))
+fault("c10-atime", "C10", "R10a", (DIR, "statval[stat.ST_MTIME] < self.cachetime", "statval[stat.ST_ATIME] < self.cachetime"))
+fault("c10-no-test", "C10", "R10a", (DIR, "if time.time() - statval[stat.ST_MTIME] < self.cachetime:", "if statval:"))
+fault("c10-cachetime-other-option", "C10", "R10a", (DIR, 'self.cachetime = self.config.getint("handlers.dir.DirHandler", "cachetime")', 'self.cachetime = self.config.getint("pygopherd", "timeout")'))
+twin("c10-twin-rearranged", "C10", (DIR, "if time.time() - statval[stat.ST_MTIME] < self.cachetime:", "if statval[stat.ST_MTIME] + self.cachetime > time.time():"))
+twin("c10-twin-not-ge", "C10", (DIR, "if time.time() - statval[stat.ST_MTIME] < self.cachetime:", "if not (time.time() - statval[stat.ST_MTIME] >= self.cachetime):"))
+twin("c10-twin-locals", "C10", (DIR, "        if time.time() - statval[stat.ST_MTIME] < self.cachetime:", "        now = time.time()\n        age = now - statval[stat.ST_MTIME]\n        if age < self.cachetime:"))
+twin("c10-twin-early-return", "C10", (DIR, "        if time.time() - statval[stat.ST_MTIME] < self.cachetime:\n", "        if time.time() - statval[stat.ST_MTIME] >= self.cachetime:\n            return False\n        if True:\n"))
+fault("c10-resave-on-hit", "C10", "R10b", (DIR, "        if self.fromcache:\n            # Don't resave the cache.\n            return\n", ""))
+fault("c10-fromcache-before-load", "C10", "R10b", (DIR, "        self.fromcache = False\n        if not hasattr", "        self.fromcache = True\n        if not hasattr"))
+fault("c10-fromcache-not-reset", "C10", "R10b", (DIR, "        self.fromcache = False\n        if not hasattr", "        if not hasattr"))
+twin("c10-twin-wrap-write", "C10", (DIR, "        if self.fromcache:\n            # Don't resave the cache.\n            return\n        if not self.vfs.iswritable(self.cachename):\n            return\n        try:\n            with self.vfs.open(self.cachename, \"wb\") as fp:\n                pickle.dump(self.fileentries, fp, 1)\n        except IOError:\n            pass",
+                                   "        if not self.fromcache:\n            if not self.vfs.iswritable(self.cachename):\n                return\n            try:\n                with self.vfs.open(self.cachename, \"wb\") as fp:\n                    pickle.dump(self.fileentries, fp, 1)\n            except IOError:\n                pass"))
+fault("c10-save-in-base-prepare", "C10", "R10c", (DIR, "        self.prep_entries()\n        return True  # Did something.", "        self.prep_entries()\n        self.savecache()\n        return True  # Did something."),
+      (DIR, "    def getdirlist(self):\n        self.savecache()\n        return self.fileentries", "    def getdirlist(self):\n        return self.fileentries"))
+fault("c10-no-save", "C10", "R10c", (DIR, "    def getdirlist(self):\n        self.savecache()\n        return self.fileentries", "    def getdirlist(self):\n        return self.fileentries"))
+fault("c10-save-from-protocol", "C10", "R10c", (PBASE, "        endstr = self.renderdirend(entry)\n", "        self.handler.savecache()\n        endstr = self.renderdirend(entry)\n"),
+      (DIR, "    def getdirlist(self):\n        self.savecache()\n        return self.fileentries", "    def getdirlist(self):\n        return self.fileentries"))
+fault("c10-sort-after-save", "C10", "R10c", (DIR, "    def getdirlist(self):\n        self.savecache()\n        return self.fileentries", "    def getdirlist(self):\n        self.savecache()\n        self.fileentries.reverse()\n        return self.fileentries"))
+twin("c10-twin-getdirlist-local", "C10", (DIR, "    def getdirlist(self):\n        self.savecache()\n        return self.fileentries", "    def getdirlist(self):\n        entries = self.fileentries\n        self.savecache()\n        return entries"))
+fault("c10-umn-sort-unconditional", "C10", "R10d", (UMN, "        if super().prepare():\n            # Returns 1 if it didn't load from the cache.\n            # Merge and sort.\n            self.MergeLinkFiles()\n            self.fileentries.sort(key=functools.cmp_to_key(self.entrycmp))", "        super().prepare()\n        self.MergeLinkFiles()\n        self.fileentries.sort(key=functools.cmp_to_key(self.entrycmp))"))
+fault("c10-prepare-true-on-hit", "C10", "R10d", (DIR, "            return False  # Did nothing.", "            return True  # Did nothing."))
+twin("c10-twin-umn-generated-local", "C10", (UMN, "        if super().prepare():\n", "        generated = super().prepare()\n        if generated:\n"))
+
+# ======================================================================= C11
+fault("c11-d5-unfixed", "C11", "R11a", (DIR, "            try:\n                with self.vfs.open(self.cachename, \"rb\") as fp:\n                    self.fileentries = pickle.load(fp)\n            except Exception:\n                # Truncated or corrupt cache file: regenerate the listing.\n                return False\n", "            with self.vfs.open(self.cachename, \"rb\") as fp:\n                self.fileentries = pickle.load(fp)\n"))
+fault("c11-narrow-handler", "C11", "R11a", (DIR, "            except Exception:\n                # Truncated or corrupt cache file: regenerate the listing.\n                return False\n", "            except EOFError:\n                return False\n"))
+fault("c11-handler-still-hit", "C11", "R11a", (DIR, "            except Exception:\n                # Truncated or corrupt cache file: regenerate the listing.\n                return False\n", "            except Exception:\n                self.fileentries = []\n"))
+fault("c11-zip-narrow", "C11", "R11a", (ZIP, "            self.dircache = shelve.open(cache_fspath, \"r\")\n        except Exception:", "            self.dircache = shelve.open(cache_fspath, \"r\")\n        except KeyError:"))
+fault("c11-zip-no-rebuild", "C11", "R11a", (ZIP, "            self.dircache = shelve.open(cache_fspath, \"r\")\n        except Exception:\n            self.populate_cache()\n            self.save_cache()", "            self.dircache = shelve.open(cache_fspath, \"r\")\n        except Exception:\n            pass"))
+twin("c11-twin-log", "C11", (DIR, "            except Exception:\n                # Truncated or corrupt cache file: regenerate the listing.\n                return False\n", "            except Exception as e:\n                self.cacheerror = str(e)\n                return False\n"))
+twin("c11-twin-tuple", "C11", (DIR, "            except Exception:\n                # Truncated", "            except (Exception, OSError):\n                # Truncated"))
+
+# ======================================================================= C12
+fault("c12-d6-unfixed-entries", "C12", "R12a", (DIR, "            except (GopherExceptions.FileNotFound, OSError):\n                # An unservable entry must not take down the whole listing.\n                continue\n", "            except KeyError:\n                continue\n"))
+fault("c12-only-fnf", "C12", "R12a", (DIR, "            except (GopherExceptions.FileNotFound, OSError):", "            except GopherExceptions.FileNotFound:"))
+fault("c12-initfiles-unguarded", "C12", "R12a", (DIR, "            except OSError:\n                # An unreadable entry must not take down the whole listing.\n                continue\n", "            except KeyError:\n                continue\n"))
+fault("c12-handler-breaks", "C12", "R12a", (DIR, "            except (GopherExceptions.FileNotFound, OSError):\n                # An unservable entry must not take down the whole listing.\n                continue\n", "            except (GopherExceptions.FileNotFound, OSError):\n                break\n"))
+fault("c12-handler-reraises", "C12", "R12a", (DIR, "            except (GopherExceptions.FileNotFound, OSError):\n                # An unservable entry must not take down the whole listing.\n                continue\n", "            except (GopherExceptions.FileNotFound, OSError):\n                raise\n"))
+fault("c12-try-outside-loop", "C12", "R12a", (DIR, "        for file in self.files:\n            # We look up the appropriate handler for this object, and ask\n            # it to give us an entry object.\n            try:\n                handler = handlers.HandlerMultiplexer.getHandler(\n                    self.selectorbase + \"/\" + file,\n                    self.searchrequest,\n                    self.protocol,\n                    self.config,\n                    vfs=self.vfs,\n                )\n                fileentry = handler.getentry()\n                self.prep_entriesappend(file, handler, fileentry)\n            except (GopherExceptions.FileNotFound, OSError):\n                # An unservable entry must not take down the whole listing.\n                continue\n",
+                                             "        try:\n            for file in self.files:\n                handler = handlers.HandlerMultiplexer.getHandler(\n                    self.selectorbase + \"/\" + file,\n                    self.searchrequest,\n                    self.protocol,\n                    self.config,\n                    vfs=self.vfs,\n                )\n                fileentry = handler.getentry()\n                self.prep_entriesappend(file, handler, fileentry)\n        except (GopherExceptions.FileNotFound, OSError):\n            pass\n"))
+twin("c12-twin-pass", "C12", (DIR, "            except (GopherExceptions.FileNotFound, OSError):\n                # An unservable entry must not take down the whole listing.\n                continue\n", "            except (GopherExceptions.FileNotFound, OSError):\n                pass\n"))
+twin("c12-twin-exception", "C12", (DIR, "            except (GopherExceptions.FileNotFound, OSError):", "            except Exception:"))
+fault("c12-stat-keyerror", "C12", "R12b", (HM, "    except OSError:\n        pass\n    for handler", "    except KeyError:\n        pass\n    for handler"))
+fault("c12-stat-unguarded-virtual", "C12", "R12b", (VIRT, "            try:\n                self.statresult = self.vfs.stat(self.selectorreal)\n            except OSError:\n                pass\n", "            self.statresult = self.vfs.stat(self.selectorreal)\n"))
+fault("c12-statresult-deref", "C12", "R12b", (FILE, "        return self.statresult and stat.S_ISREG(self.statresult[stat.ST_MODE])\n\n    def getentry(self):\n        if not self.entry:\n            self.entry = gopherentry.GopherEntry(self.selector, self.config)\n            self.entry.populatefromfs", "        return stat.S_ISREG(self.statresult[stat.ST_MODE])\n\n    def getentry(self):\n        if not self.entry:\n            self.entry = gopherentry.GopherEntry(self.selector, self.config)\n            self.entry.populatefromfs"))
+twin("c12-twin-bind-none", "C12", (HM, "    except OSError:\n        pass\n    for handler", "    except OSError:\n        statresult = None\n    for handler"))
+
+# ======================================================================= C20
+fault("c20-no-except-exception", "C20", "R20a", (SERVER, "        except Exception as e:\n            if GopherExceptions.tracebacks:\n                # Yes, this may be invalid.  Not much else we can do.\n                # traceback.print_exc(file = self.wfile)\n                traceback.print_exc()\n            GopherExceptions.log(e, protohandler, None)\n", ""))
+fault("c20-reraise", "C20", "R20a", (SERVER, "                traceback.print_exc()\n            GopherExceptions.log(e, protohandler, None)\n        finally:", "                traceback.print_exc()\n            GopherExceptions.log(e, protohandler, None)\n            raise\n        finally:"))
+fault("c20-handle-outside-try", "C20", "R20a", (SERVER, "        try:\n            protohandler.handle()\n        except IOError as e:", "        protohandler.handle()\n        try:\n            pass\n        except IOError as e:"))
+fault("c20-no-log", "C20", "R20a", (SERVER, "                traceback.print_exc()\n            GopherExceptions.log(e, protohandler, None)\n        except Exception", "                traceback.print_exc()\n        except Exception"))
+fault("c20-log-without-protocol", "C20", "R20a", (SERVER, "                traceback.print_exc()\n            GopherExceptions.log(e, protohandler, None)\n        except Exception", "                traceback.print_exc()\n            GopherExceptions.log(e, None, None)\n        except Exception"))
+fault("c20-thread-no-shutdown", "C20", "R20a", (SERVER, "        except Exception:\n            self.handle_error(request, client_address)\n        finally:\n            self.shutdown_request(request)", "        except Exception:\n            self.handle_error(request, client_address)\n        self.shutdown_request(request)"))
+fault("c20-thread-no-except", "C20", "R20a", (SERVER, "            request = self.wrap_socket(request)\n            self.finish_request(request, client_address)\n        except Exception:\n            self.handle_error(request, client_address)\n        finally:\n            self.shutdown_request(request)", "            request = self.wrap_socket(request)\n            self.finish_request(request, client_address)\n        finally:\n            self.shutdown_request(request)"))
+twin("c20-twin-oserror", "C20", (SERVER, "        except IOError as e:\n            if not (e.errno", "        except OSError as e:\n            if not (e.errno"))
+fault("c20-d4-unfixed", "C20", "R20b", (HTTP, "            self.filenotfound(e.strerror or str(e))", "            self.filenotfound(e.args[1])"))
+fault("c20-args0-then-1", "C20", "R20b", (GEM, "            self.write_status(51, e.strerror or str(e))", "            self.write_status(51, e.args[0] and e.args[1])"))
+twin("c20-twin-msg-local", "C20", (GP, "            self.filenotfound(e.strerror or str(e))", "            msg = e.strerror or str(e)\n            self.filenotfound(msg)"))
+twin("c20-twin-args-guarded", "C20", (GP, "            self.filenotfound(e.strerror or str(e))", "            self.filenotfound(e.args[1] if len(e.args) > 1 else str(e))"))
+fault("c20-bare-open-attr", "C20", "R20c", (HTML, "        with self.vfs.open(self.getselector(), \"rb\") as fp:\n            while not parser.gotcompletetitle:\n                line = fp.readline()\n                if not line:\n                    break\n                # The PY3 HTML parser doesn't handle surrogateescape\n                parser.feed(line.decode(errors=\"replace\"))\n            parser.close()",
+                                         "        self.fp = self.vfs.open(self.getselector(), \"rb\")\n        while not parser.gotcompletetitle:\n            line = self.fp.readline()\n            if not line:\n                break\n            parser.feed(line.decode(errors=\"replace\"))\n        parser.close()"),
+      (SERVER, "            if protohandler is not None:\n                protohandler.handler = None\n", "            pass\n"))
+fault("c20-d16-unfixed", "C20", "R20c", (MBOX, "        try:\n            super().prepare()\n        finally:\n            self.mbox.close()", "        super().prepare()"),
+      (SERVER, "            if protohandler is not None:\n                protohandler.handler = None\n", "            pass\n"))
+fault("c20-cycle-not-broken", "C20", "R20c", (SERVER, "            if protohandler is not None:\n                protohandler.handler = None\n", "            pass\n"))
+twin("c20-twin-closing", "C20", (GMAP, "        with self.vfs.open(selector, \"rb\") as rfile:", "        import contextlib\n        with contextlib.closing(self.vfs.open(selector, \"rb\")) as rfile:"))
+fault("c20-log-no-class", "C20", "R20d", (GEXC, "    exceptionclass = type(exception).__name__", '    exceptionclass = "Error"'))
+fault("c20-log-no-address", "C20", "R20d", (GEXC, "        ipaddr = protocol.requesthandler.client_address[0]\n", ""))
